@@ -6,6 +6,7 @@
 
 #include "tsm_core.hpp"
 #include "cnt_core.hpp"
+#include "per_core.hpp"
 #include "rt/sched.hpp"
 #include "algorithms/openmp/tbfopenmpalgorithm.hpp"
 #include "algorithms/openmp/tbfopenmpalgorithmtsm.hpp"
@@ -186,6 +187,41 @@ template <class E> Segment c09OmpSegment(long nQ, long nT, bool tsan) {
         res.desc = fmm::tsmDesc<E>(c) + " executor=TbfOpenmpAlgorithmTsm schedules=" + vh::str(sc.size());
         ompTsm<E>(c, sc, res, "c09", tsan);
         res.sig = "tsm-omp:" + vh::str(vh::mix(c.seed, 10)); res.nontrivial = res.events["tasks-executed"] > long(sc.size()) * 3;
+    };
+    return s;
+}
+
+// C10 with the OpenMP executors around the periodic top-tree step (documented four-call sequence), shim schedules
+template <class E> Segment c10OmpSegment(long nQ, long nT) {
+    constexpr int D = E::Cfg::Dim;
+    Segment s; s.name = std::string("c10-omp-D") + vh::str(D);
+    s.count = [=](bool th) { return th ? nT : nQ; };
+    s.run = [=](long kk, uint64_t seed, bool th, Result& res) {
+        vh::Rng r(vh::mix(seed ^ 0xC10E, uint64_t(kk) * 4 + D));
+        const long extraMax = D == 3 ? 3 : 5;
+        const long extra = (kk % 7 == 0) ? extraMax : r.range(-1, th ? extraMax : std::min<long>(extraMax, 2));
+        const int nSched = th ? 4 : 2;
+        auto setup = [](vp::RecCtx<D>& rc) { rc.currentTask = [] { return vsched::currentTask(); }; rc.currentWorker = [] { return vsched::currentWorker(); }; };
+        std::string last;
+        auto before = [&] { const Sched sd{int(1 + r.below(8)), int(r.below(vsched::NB_POLICIES)), r.next() % 100000}; vsched::configure(sd.threads, sd.policy, sd.seed); last = schedStr(sd); res.ev("schedules-executed"); };
+        if (kk % 2 == 0) {
+            auto c = fmm::randomConf<E>(r, vh::mix(seed, kk), extra >= 4 ? 40 : 100, false, 2);
+            if (r.coin(0.3)) { const typename E::Cfg cfg(c.geo.H, c.geo.width, c.geo.center);
+                c.parts = tbx::withExtras<typename E::Cfg::RealType, D, E::NV>(tbx::genPositions<typename E::Cfg::RealType, D>(r, cfg, tbx::D_BOXFACES, long(c.parts.size())), c.seed); c.dist = "boxfaces"; }
+            c.upper = 1;
+            if (c.blockSize > 8 && r.coin(0.6)) c.blockSize = 1 + long(r.below(6));
+            res.desc = fmm::confDesc<E>(c) + " extraLevels=" + vh::str(extra) + " top-tree=single executor=TbfOpenmpAlgorithm x" + vh::str(nSched) + " schedule sets";
+            for (int q = 0; q < nSched; ++q) fmm::periodicSingle<E, TbfOpenmpAlgorithm>(c, extra, res, "c10", setup, before);
+            res.sig = "per-omp:" + fmm::confSig<E>(c, vh::mix(c.seed, 5)) + ",x" + vh::str(extra); res.nontrivial = c.parts.size() >= 1;
+        } else {
+            auto c = fmm::randomTsmConf<E>(r, vh::mix(seed, kk), extra >= 4 ? 40 : 80, 2);
+            c.upper = 1;
+            if (c.blockSize > 8 && r.coin(0.6)) c.blockSize = 1 + long(r.below(6));
+            res.desc = fmm::tsmDesc<E>(c) + " extraLevels=" + vh::str(extra) + " top-tree=target/source executor=TbfOpenmpAlgorithmTsm x" + vh::str(nSched) + " schedule sets";
+            for (int q = 0; q < nSched; ++q) fmm::periodicTsm<E, TbfOpenmpAlgorithmTsm>(c, extra, res, "c10", setup, before);
+            res.sig = "per-omp-tsm:D" + vh::str(D) + "," + vh::str(vh::mix(c.seed, 6)) + ",x" + vh::str(extra); res.nontrivial = true;
+        }
+        if (!res.violations.empty()) res.desc += " last schedule " + last;
     };
     return s;
 }
